@@ -27,18 +27,48 @@ def enc_missing(chk, program):
         fa, fb, fc = A.AObj(id=A.AStr([('lit', 'a')]), n=1), A.AObj(id=A.AStr([('lit', 'b')]), n=2), A.AObj(id=A.AStr([('lit', 'a')]), n=3)
         cls = program.cls('message', 'NMEA2000Message')
         methods = {n.name: n for n in cls.body if isinstance(n, ast.FunctionDef)}
-        def run(fields, fid):
-            msg = A.AObj(fields=A.AList(list(fields)), PGN=A.AInt(1), id=A.AStr([('lit', 'x')]))
+        def defaults():
+            """attributes a fresh message has beyond those given to the constructor: the class-level defaults (constants, default_factory of list / dict)"""
+            d = {}
+            for n in cls.body:
+                if isinstance(n, ast.AnnAssign) and isinstance(n.target, ast.Name) and n.value is not None:
+                    v = n.value
+                    if isinstance(v, ast.Constant):
+                        d[n.target.id] = v.value if v.value is None or isinstance(v.value, bool) else (A.AInt(v.value) if isinstance(v.value, int) else (A.AStr([('lit', v.value)]) if isinstance(v.value, str) else None))
+                    elif isinstance(v, ast.Call) and isinstance(v.func, ast.Name) and v.func.id == 'field':
+                        for kw in v.keywords:
+                            if kw.arg == 'default_factory' and isinstance(kw.value, ast.Name) and kw.value.id in ('list', 'dict'):
+                                d[n.target.id] = A.AList([]) if kw.value.id == 'list' else A.ADict({})
+                            elif kw.arg == 'default' and isinstance(kw.value, ast.Constant) and kw.value.value is None:
+                                d[n.target.id] = None
+            return d
+        def message(fields):
+            at = defaults()
+            at.update(fields=A.AList(list(fields)), PGN=A.AInt(1), id=A.AStr([('lit', 'x')]))
+            return A.AObj(**at)
+        def look(msg, fid):
             try:
                 return ('return', A.Interp(methods=methods).call_function(fn, [msg, A.AStr([('lit', fid)])]))
             except A.RaiseSignal as r:
                 return ('raise', A.exc_kind(r))
+        def run(fields, fid):
+            return look(message(fields), fid)
         got = {'first-of-duplicates': run([fa, fb, fc], 'a'), 'second': run([fa, fb, fc], 'b'), 'missing': run([fa, fb, fc], 'zz'), 'no-fields': run([], 'a')}
         want = {'first-of-duplicates': ('return', fa), 'second': ('return', fb), 'missing': ('raise', 'ValueError'), 'no-fields': ('raise', 'ValueError')}
+        # the answer is a function of the fields the message has NOW: the same message asked again after its field list was edited
+        fd = A.AObj(id=A.AStr([('lit', 'd')]), n=4)
+        m1 = message([fa, fb, fc]); look(m1, 'a'); m1.attrs['fields'].items[0] = fd
+        got['after-replacing-one-field::new'] = look(m1, 'd'); want['after-replacing-one-field::new'] = ('return', fd)
+        got['after-replacing-one-field::old'] = look(m1, 'a'); want['after-replacing-one-field::old'] = ('return', fc)
+        m2 = message([fa]); look(m2, 'a'); m2.attrs['fields'] = A.AList([fb])
+        got['after-assigning-a-new-list::new'] = look(m2, 'b'); want['after-assigning-a-new-list::new'] = ('return', fb)
+        got['after-assigning-a-new-list::old'] = look(m2, 'a'); want['after-assigning-a-new-list::old'] = ('raise', 'ValueError')
+        m3 = message([fa]); look(m3, 'b'); m3.attrs['fields'].items.append(fb)
+        got['after-append'] = look(m3, 'b'); want['after-append'] = ('return', fb)
         ok = all(got[k][0] == want[k][0] and (got[k][1] is want[k][1] if want[k][0] == 'return' else got[k][1] == want[k][1]) for k in want)
         chk.check(ok, 'ENC-MISSING', 'NMEA2000Message.get_field_by_id', file='nmea2000/message.py', line=fn.lineno, func='get_field_by_id',
-                  expected='first field with f.id == id, else raise ValueError (no path returns None / a default)',
-                  found='ok' if ok else {k: (v[0], (v[1].attrs.get('n') if isinstance(v[1], A.AObj) else repr(v[1]))) for k, v in got.items()})
+                  expected='first field of the current field list with f.id == id, else raise ValueError (no path returns None / a default / a field the message no longer has)',
+                  found='ok' if ok else {k: (v[0], (v[1].attrs.get('n') if isinstance(v[1], A.AObj) else repr(v[1]))) for k, v in got.items() if not (v[0] == want[k][0] and (v[1] is want[k][1] if want[k][0] == 'return' else v[1] == want[k][1]))})
         return
     except A.Unknown as u:
         chk.unit('get_field_by_id_not_interpretable', str(u))
@@ -167,8 +197,11 @@ def run(chk, program, tier):
                  ('ENC-MASK', 'mask/shift per piece; disjoint database bit ranges'), ('GEN-ENC', 'each call site hands encode_number the bit length / signedness / resolution of its own field'), ('ENC-MISSING', 'missing field raises'),
                  ('ENC-WRAP', 'encoder errors surface as ValueError'), ('ENC-PRODUCER', 'unchecked producers reaching a mask'), ('ROUND', 'round before int')):
         chk.rule(r, t)
+    chk.rule('SENT-AGREE', 'an absent value is written as the pattern the decoder reads as absent (C02)')
+    chk.rule('SIGN-AGREE', 'two\'s complement agrees with the decoder (C02)')
     H.enc_range(chk, program)
     sites = E.gen_enc(chk, program, want=('table', 'mask'))
+    H.sent_sign_agree(chk, program, sites)
     bit_disjoint(chk, program)
     enc_missing(chk, program)
     enc_wrap(chk, program)
